@@ -145,9 +145,11 @@ class SV:
             o = int(o)
         if isinstance(o, (int, _np.integer)):
             o = int(o)
-            if o >= 0:
-                r = z3.RealVal(1)
-                for _ in range(o):
+            if o == 0:
+                return SV(z3.RealVal(1), s.bad)
+            if o > 0:
+                r = s.z
+                for _ in range(o - 1):
                     r = r * s.z
                 return SV(r, s.bad)
             return 1 / (s ** (-o))
